@@ -40,7 +40,7 @@ func init() {
 	reg(&Property{
 		ID:          "C01",
 		Explanation: "Decides on every path of the memory driver: S1 the seven indexes are written, deleted and read under the same keys (bucket key signature and element key = full triple UUID agree between AddTriples, RemoveTriples and each of the twelve readers; each index is freshly allocated per graph and no package-level map exists); S2 create/get/drop of a graph name test presence first and fail without effect otherwise; S3 every access to the namespace map and the indexes holds the owner's lock in the required mode. The identity clause is C06's rule H2. Also (DESIGN §0.1): S1x bucket drops guarded by that bucket's emptiness and NewGraph registering a value allocated in the call; S2y presence test and map update inside one write-locked section; H1x/H3x the identity hashes read whole varints from buffers still owned; M4/M5 the memoizing wrapper's keys use full UUIDs. Not decided: set semantics over histories as such.",
-		Rules:       []func(*Ctx){ruleS7b, ruleM3b, ruleH1x, ruleH3x, ruleM4M5, ruleS1, ruleS1x, ruleS2, ruleS2y, ruleS3, ruleS7},
+		Rules:       []func(*Ctx){ruleS3d, ruleS7b, ruleM3b, ruleH1x, ruleH3x, ruleM4M5, ruleS1, ruleS1x, ruleS2, ruleS2y, ruleS3, ruleS7},
 		Level:       "index key agreement between writer, deleter and readers (S1), guarded namespace operations (S2), lockset (S3), batch atomicity (S7)",
 		Trusted:     []string{"Go map semantics", "guard table of S3", trustedCore},
 		NotDecided:  []string{"set semantics over arbitrary histories as such (follows from map semantics once S1 holds, but no rule states it)", "idempotence of re-add / absent-remove", "independence of graphs beyond per-graph allocation of every index", "injectivity of the identity hashes (H2 only refutes)"},
@@ -81,7 +81,7 @@ func init() {
 	reg(&Property{
 		ID:          "C06",
 		Explanation: "Decides: H1 every varint buffer can hold a 64-bit value; H2 the byte strings hashed by the identity methods show none of the certain non-injectivity patterns (adjacent variable segments, untagged bare-variable or equal-length alternatives, optional suffix after a variable segment, untagged delegation), Triple.UUID tiles its buffer with the full UUIDs of subject, predicate, object, no zone-dependent rendering is hashed, Triple.Equal is uuid.Equal of the two UUIDs; H3 no clock/random/pid/map-order dependency and pooled buffers are reset. H2 only refutes injectivity; it never proves it. Also: H1x varint hashed whole (array- or slice-backed), H3x pooled buffers released last.",
-		Rules:       []func(*Ctx){rulePT1, func(c *Ctx) { ruleH3z(c, "triple/...", "io", "storage/...", "bql/...") }, func(c *Ctx) { ruleS3c(c, "triple/...", "io") }, ruleH1, ruleH1x, ruleH2, ruleH3, ruleH3x},
+		Rules:       []func(*Ctx){ruleH4, rulePT1, func(c *Ctx) { ruleH3z(c, "triple/...", "io", "storage/...", "bql/...") }, func(c *Ctx) { ruleS3c(c, "triple/...", "io") }, ruleH1, ruleH1x, ruleH2, ruleH3, ruleH3x},
 		Level:       "symbolic framing analysis of every hashed byte string over all paths of the seven identity methods (H2), buffer capacity (H1), determinism by reachability (H3)",
 		Trusted:     []string{"SHA-1 collision freedom", "uuid.NewSHA1 hashes exactly the bytes given", trustedCore},
 		NotDecided:  []string{"injectivity as such (suffix-code reasoning is not attempted)", "SHA-1 collisions"},
@@ -89,7 +89,7 @@ func init() {
 	reg(&Property{
 		ID:          "C07",
 		Explanation: "Decides, for every path of the analysed functions and hence every schedule that can drive them: S3 every access to a lock-guarded field (frozen guard table: memoryStore.graphs, the seven memory indexes, the five memoizer caches, Table rows/bindings) holds the owner's lock in the required mode; S4 no method re-acquires its receiver's lock through a same-receiver call; S5 every Store/Graph method with a result channel closes it exactly once on every return, error returns included; S6 no lookup (or module callee it hands the pointer to) stores through its *LookupOptions; S7 AddTriples is one critical section; S2 create/get/drop test presence under the lock; L6 planner goroutines are joined. Also: S2y write-locked create/drop; H3y module-wide pooled-buffer release order. Not decided: linearizability.",
-		Rules:       []func(*Ctx){func(c *Ctx) { ruleH3z(c, "triple/...", "io", "storage/...", "bql/...") }, func(c *Ctx) { ruleS3c(c, "triple/...", "io", "bql/...", "storage/...") }, ruleS3b, ruleS13, ruleS3, ruleS4, ruleS5, ruleS6, ruleS7, ruleS2, ruleS2y, func(c *Ctx) { ruleH3y(c) }, func(c *Ctx) { ruleL6(c, 23, "bql/planner", "storage/...") }},
+		Rules:       []func(*Ctx){ruleH4, ruleS3d, func(c *Ctx) { ruleH3w(c, "triple/...", "io", "storage/...", "bql/...") }, func(c *Ctx) { ruleH3z(c, "triple/...", "io", "storage/...", "bql/...") }, func(c *Ctx) { ruleS3c(c, "triple/...", "io", "bql/...", "storage/...") }, ruleS3b, ruleS13, ruleS3, ruleS4, ruleS5, ruleS6, ruleS7, ruleS2, ruleS2y, func(c *Ctx) { ruleH3y(c) }, func(c *Ctx) { ruleL6(c, 23, "bql/planner", "storage/...") }},
 		Level:       "lockset (S3), lock re-entry (S4), close-exactly-once typestate on all returns (S5), options never written (S6), batch atomicity (S7)",
 		Trusted:     []string{"guard table of rule S3 (field -> lock; a new map/slice field on a lock-owning type is reported until added)", "tableSequentialOnly exemptions (3 Table methods, reasons in source)", trustedCore},
 		NotDecided:  []string{"linearizability of histories", "deadlocks that depend on the consumer of a result channel (lookups send while holding the read lock by design)", "panics", "data races on state outside the guard table"},
@@ -171,7 +171,7 @@ func init() {
 	reg(&Property{
 		ID:          "C16",
 		Explanation: "Decides: X1 every unbounded lexer loop consumes a rune per cycle and has no feasible cycle at end of input; X1b every state-graph cycle passes through lexToken, which hands over without consuming only under a rune-class fact, after which at least one rune is consumed; X2 exactly one terminal token, nothing after it, channel closed once by run; X3 cursor writers and backup-after-next typestate, hence token texts are ordered disjoint substrings and emit cannot panic; X4 keywords and literal type names are matched case-insensitively; X5 TokenType.String, grammar tokens and literal type names agree. Also: X6 no blind skip; X7 position moves by the decoder's size only; X8 the predicate/literal dispatch cannot take the opening quote for a closing one. Not decided: whitespace invariance, printed form is one token.",
-		Rules:       []func(*Ctx){ruleX7, ruleX8, ruleX1, ruleX1b, ruleX2, ruleX3, ruleX4, ruleX5, ruleX6},
+		Rules:       []func(*Ctx){ruleX9, ruleX7, ruleX8, ruleX1, ruleX1b, ruleX2, ruleX3, ruleX4, ruleX5, ruleX6},
 		Level:       "progress/ranking argument per loop and for the state machine by abstract interpretation over rune classes (X1, X1b), typestate (X2, X3), table agreement (X4, X5)",
 		Trusted:     []string{"utf8.DecodeRuneInString returns width >= 1 on non-empty input", trustedCore},
 		NotDecided:  []string{"whitespace invariance of token kinds and texts", "the printed form of a value is emitted as exactly one token (value-level)"},
@@ -179,7 +179,7 @@ func init() {
 	reg(&Property{
 		ID:          "C17",
 		Explanation: "Decides, completely over the finite grammar table constant-evaluated from grammar.BQL: G1 pairwise distinct first tokens, token-first, single last empty alternative, defined/reachable/productive rules; G2 a shortest witness sentence per alternative accepted by the checker's model of the predictive parser with exactly that alternative firing, and structural conformance of Parser.consume/expect to the model; G3 the semantic grammar is the plain grammar plus hooks; X5 every grammar token can be produced by the lexer. The real parser is not executed.",
-		Rules:       []func(*Ctx){ruleG1, ruleG2, ruleG3, ruleX5},
+		Rules:       []func(*Ctx){ruleX9, ruleG1, ruleG2, ruleG3, ruleX5},
 		Level:       "exhaustive check of the LL(1) conditions over the finite table (G1), witness construction against a model parser plus structural conformance of the real parser (G2), shape preservation (G3)",
 		Trusted:     []string{"the constant evaluator covers the literal subset the grammar is written in (anything else is reported undecided, never passed)", trustedCore},
 		NotDecided:  []string{"behaviour of the real parser beyond its structural conformance to the model (it is not run)"},
@@ -198,7 +198,7 @@ func init() {
 	reg(&Property{
 		ID:          "C19",
 		Explanation: "Decides: M1 the cache key covers every field of LookupOptions and of the nested filter options and includes the options' identity; M2 handles of one graph share cache state; M3 a reset follows the forwarded write; M4 only successful, complete reads are cached; M5 op name = method = forwarded method, pairwise distinct, full UUIDs of all components, same map and key for load and store, caller's arguments forwarded; S3/S5 lock and channel discipline of the wrapper; L6 its goroutines are joined. Also: M1x every option field is written into the key rendering; M3b unconditional resets; M4b every delivered element is recorded before caching. Not decided: equality of answers over histories and interleavings.",
-		Rules:       []func(*Ctx){ruleS13, ruleM1, ruleM1x, ruleM2, ruleM3, ruleM3b, ruleM4M5, ruleM4b, ruleS3, ruleS5, func(c *Ctx) { ruleL6(c, 11, "storage/memoization") }},
+		Rules:       []func(*Ctx){func(c *Ctx) { ruleH3w(c, "triple/...", "io", "storage/...", "bql/...") }, ruleS13, ruleM1, ruleM1x, ruleM2, ruleM3, ruleM3b, ruleM4M5, ruleM4b, ruleS3, ruleS5, func(c *Ctx) { ruleL6(c, 11, "storage/memoization") }},
 		Level:       "field coverage of the key (M1), provenance of handed-out memoizers (M2), post-dominance of the reset (M3), edge facts on cache stores (M4), key/op/forwarding agreement (M5)",
 		Trusted:     []string{"the wrapped driver is the specification", trustedCore},
 		NotDecided:  []string{"equality of answers with the wrapped store over all histories", "interleavings (M3 is necessary, not sufficient)"},
